@@ -156,6 +156,15 @@ class ConfigGraph:
                         note("R9.1-I4-nothing-missing", t, stag, stag in r2,
                              f"after a `{t.tag}` event the activated tagger `{stag}` has no pending event and is not "
                              f"created (history: {tr} -> {t.tag})")
+                if "C11" in rules and not (t.facts and t.facts.ends_run):
+                    for stag in sorted(a2):
+                        sv = self.by_tag[stag]
+                        if sv.facts and sv.facts.snaps_position and sv.state_label is not None:
+                            if tr is None:
+                                tr = self.trace(s)
+                            note("R11.5-boundary-event-always-pending", t, stag, stag in r2,
+                                 f"after a `{t.tag}` event the cell-boundary tagger `{stag}` has no pending event: the active unit "
+                                 f"can leave its recorded cell without a cell-boundary event (history: {tr} -> {t.tag})")
                 if t.facts and t.facts.ends_run:
                     continue
                 s2 = (a2, r2)
